@@ -38,6 +38,7 @@ C15Keys(r) ==
           IF IsPanic(st) \/ "take" \notin DOMAIN st.r THEN {}
           ELSE IF IsPanic(st.r.take) THEN {"C15/schema_take/" \o r.history[i].stmt \o "/panic"}
           ELSE (IF st.r.take.r.dbg_equal THEN {} ELSE {"C15/schema_take/" \o r.history[i].stmt \o "/taken_differs_from_statement_before"})
+               \cup (IF "coldef_take" \in DOMAIN st.r /\ (IsPanic(st.r.coldef_take) \/ ~st.r.coldef_take.r) THEN {"C15/schema_take/column_def/taken_differs_from_definition_before"} ELSE {})
                \cup (IF \A B \in DOMAIN st.r.r : (IsPanic(st.r.r[B]) /\ IsPanic(st.r.take.r.render_taken[B])) \/ (~IsPanic(st.r.r[B]) /\ ~IsPanic(st.r.take.r.render_taken[B]) /\ st.r.r[B].r = st.r.take.r.render_taken[B].r)
                      THEN {} ELSE {"C15/schema_take/" \o r.history[i].stmt \o "/taken_renders_differently"})
           : i \in DOMAIN r.history }
